@@ -265,6 +265,25 @@ theorem convert_roundtrip_pmtiles (K : Inflate) (enc : Bytes → Bytes) (s : Src
         PMTiles.getTile r c.1 c.2.1 c.2.2 = .ok (VtProofs.VersatilesWrite.nonEmpty o) :=
   VtProofs.Capstone.convert_roundtrip_pmtiles K enc s hg hc hs fmt comp g metaB hcz hgeo hK hnil hmeta hcount file hw hsize
 
+open VtProofs.Capstone in
+/-- **end to end (tar)**: a `Good` source (C02) with at least one tile, written by the tar writer and
+    opened again, answers every streamed tile with its payload and every other coordinate with `None` -/
+theorem convert_roundtrip_tar (K : Inflate) (s : Src Bytes) (hg : Good s) (fmt : TileFormat) (comp : TComp) (metaB : Bytes)
+    (hmeta : ∃ raw, K.run comp metaB = .ok raw) (hne : (levelsOf s).flatMap (streamOf s) ≠ []) :
+    ∃ r, TarDir.openTar K (TarDir.writeFiles (wsource s fmt comp metaB)) = .ok r ∧ r.fmt = fmt ∧ r.comp = comp ∧
+      (∀ t ∈ (levelsOf s).flatMap (streamOf s), TarDir.getTile r t.1.1 t.1.2.1 t.1.2.2 = .ok (some t.2)) ∧
+      (∀ x y z, (∀ t ∈ (levelsOf s).flatMap (streamOf s), t.1 ≠ (x, y, z)) → TarDir.getTile r x y z = .ok none) :=
+  VtProofs.Capstone.convert_roundtrip_tar K s hg fmt comp metaB hmeta hne
+
+open VtProofs.Capstone in
+/-- **end to end (directory)** -/
+theorem convert_roundtrip_directory (K : Inflate) (s : Src Bytes) (hg : Good s) (fmt : TileFormat) (comp : TComp)
+    (metaB : Bytes) (hmeta : ∃ raw, K.run comp metaB = .ok raw) (hne : (levelsOf s).flatMap (streamOf s) ≠ []) :
+    ∃ r, TarDir.openDir K (TarDir.writeFiles (wsource s fmt comp metaB)) = .ok r ∧ r.fmt = fmt ∧ r.comp = comp ∧
+      (∀ t ∈ (levelsOf s).flatMap (streamOf s), TarDir.getTile r t.1.1 t.1.2.1 t.1.2.2 = .ok (some t.2)) ∧
+      (∀ x y z, (∀ t ∈ (levelsOf s).flatMap (streamOf s), t.1 ≠ (x, y, z)) → TarDir.getTile r x y z = .ok none) :=
+  VtProofs.Capstone.convert_roundtrip_dir K s hg fmt comp metaB hmeta hne
+
 /-- the assumptions are met by every source that serves the trait's default bbox stream from a total,
     never failing lookup (e.g. the harness' `MemSource`, the tar / directory / PMTiles readers) -/
 theorem default_source_is_good (lookup : Coord → Outcome (Option Bytes)) (cover : Pyramid) (hc : cover.WF)
